@@ -29,10 +29,15 @@ CONFIGS = {
     "spec_v6": {"ip": {"EVENT": "1/s"}, SPEC6: {"EVENT": "2/s"}},
     "spec_longer_interval": {"ip": {"EVENT": "2/s"}, SPEC: {"EVENT": "2/m"}},
     "ip_2m": {"ip": {"EVENT": "2/m"}},
+    # two rules that name the same interval (both apply), and the other documented spellings of the units
+    "ip_dup_interval": {"ip": {"EVENT": "1/s,3/sec"}},
+    "ip_dup_interval_rev": {"ip": {"EVENT": "3/second,2/S"}},
+    "ip_spellings": {"ip": {"EVENT": "2/SEC", "REQ": "1/second"}},
+    "ip_min_spellings": {"ip": {"EVENT": "1/sec,2/min,3/minute"}},
 }
 DTS = [0.0, 0.5, 1.0, 1.5, 59.5, 60.5]
 DEEPER = {"ip_2m"}  # small alphabets explored one step deeper (a wiped minute window needs five steps to show)
-UNIT = {"s": 1, "m": 60, "h": 3600}
+UNIT = {"s": 1, "second": 1, "sec": 1, "m": 60, "minute": 60, "min": 60, "h": 3600, "hour": 3600, "hr": 3600}
 
 
 def parse_rules(cfg):
@@ -43,7 +48,7 @@ def parse_rules(cfg):
             rules = []
             for r in spec.split(","):
                 n, u = r.split("/")
-                rules.append((UNIT[u], int(n)))
+                rules.append((UNIT[u.lower()], int(n)))
             out[scope][cmd] = rules
     return out
 
